@@ -1072,6 +1072,7 @@ package sarama
 
 //@ func (p *asyncProducer) returnError(msg, err) props C01 C05
 //@   callsite Done: modifies msg.disp
+//@   callsite Done: requires[event_delivered_before_the_message_leaves_flight @C01] msg.errEvents == old(msg.errEvents) + ite(p.conf.Producer.Return.Errors, 1, 0)
 //@   callsite Done: effect msg.disp == old(msg.disp) + 1
 //@   ensures[disposed] msg.disp == old(msg.disp) + 1
 //@   ensures[inflight] wgcount(p.inFlight) == old(wgcount(p.inFlight)) - 1
@@ -1092,6 +1093,7 @@ package sarama
 //@   modifies ProducerMessage.disp, ProducerMessage.errEvents, ProducerMessage.succEvents, ProducerMessage.flags, ProducerMessage.retries, ProducerMessage.sequenceNumber, ProducerMessage.producerEpoch, ProducerMessage.hasSequence, transactionManager.producerEpoch, map:p.txnmgr.sequenceNumbers, $wg
 //@   requires forall i :: 0 <= i && i < len(batch) ==> idxOf(batch, batch[i]) == i
 //@   callsite Done: modifies msg.disp
+//@   callsite Done: requires[event_delivered_before_the_message_leaves_flight @C01] batch[$i0].succEvents == old(batch[$i0].succEvents) + ite(p.conf.Producer.Return.Successes, 1, 0)
 //@   callsite Done: effect msg.disp == old(msg.disp) + 1
 //@   ensures[disposed] forall i :: 0 <= i && i < len(batch) ==> batch[i].disp == old(batch[i].disp) + 1
 //@   ensures[inflight] wgcount(p.inFlight) == old(wgcount(p.inFlight)) - len(batch)
@@ -1457,8 +1459,11 @@ package sarama
 
 //@ ghost field clusterAdmin.refreshes int
 
+// controllerAt(ca, k): the controller the admin knows after k refreshes of the controller
+//@ ghost func controllerAt(*clusterAdmin, int) *Broker
 //@ func (ca *clusterAdmin) Controller() trusted
 //@   returns b, err
+//@   ensures[the_known_controller] err == nil ==> b == controllerAt(ca, ca.refreshes)
 //@   modifies nothing
 //@ func (ca *clusterAdmin) refreshController() trusted
 //@   returns b, err
@@ -1480,6 +1485,7 @@ package sarama
 //@ func clusterAdmin.CreateTopic#lit0() props C19
 //@   returns e
 //@   per_return
+//@   callsite Broker.CreateTopics: requires[to_the_controller_of_this_attempt] $recv == controllerAt(ca, ca.refreshes)
 //@   ensures[success_only_if_broker_said_so] e == nil ==> rsp != nil && haskey(rsp.TopicErrors, topic) && rsp.TopicErrors[topic].Err == ErrNoError
 //@   ensures[refresh_on_not_controller] rsp != nil && ok && topicErr.Err == ErrNotController ==> ca.refreshes == old(ca.refreshes) + 1 && e == topicErr
 //@   ensures[other_errors_unchanged] rsp != nil && ok && topicErr.Err != ErrNoError && topicErr.Err != ErrNotController ==> ca.refreshes == old(ca.refreshes) && e == topicErr
@@ -1488,6 +1494,7 @@ package sarama
 //@ func clusterAdmin.DeleteTopic#lit0() props C19
 //@   returns e
 //@   per_return
+//@   callsite Broker.DeleteTopics: requires[to_the_controller_of_this_attempt] $recv == controllerAt(ca, ca.refreshes)
 //@   ensures[success_only_if_broker_said_so] e == nil ==> rsp != nil && haskey(rsp.TopicErrorCodes, topic) && rsp.TopicErrorCodes[topic] == ErrNoError
 //@   ensures[refresh_on_not_controller] rsp != nil && ok && topicErr == ErrNotController ==> ca.refreshes == old(ca.refreshes) + 1 && e == topicErr
 //@   ensures[other_errors_unchanged] rsp != nil && ok && topicErr != ErrNoError && topicErr != ErrNotController ==> ca.refreshes == old(ca.refreshes) && e == topicErr
@@ -1495,6 +1502,7 @@ package sarama
 //@ func clusterAdmin.CreatePartitions#lit0() props C19
 //@   returns e
 //@   per_return
+//@   callsite Broker.CreatePartitions: requires[to_the_controller_of_this_attempt] $recv == controllerAt(ca, ca.refreshes)
 //@   ensures[success_only_if_broker_said_so] e == nil ==> rsp != nil && haskey(rsp.TopicPartitionErrors, topic) && rsp.TopicPartitionErrors[topic].Err == ErrNoError
 //@   ensures[refresh_on_not_controller] rsp != nil && ok && topicErr.Err == ErrNotController ==> ca.refreshes == old(ca.refreshes) + 1 && e == topicErr
 //@   ensures[other_errors_unchanged] rsp != nil && ok && topicErr.Err != ErrNoError && topicErr.Err != ErrNotController ==> ca.refreshes == old(ca.refreshes) && e == topicErr
@@ -2244,8 +2252,16 @@ package sarama
 //@   requires bp.parent != nil
 //@   ensures[fresh_empty_buffer] bp.buffer != nil && fresh(bp.buffer) && bp.buffer.bufferBytes == 0 && bp.buffer.bufferCount == 0 && bp.buffer.msgs != nil && maplen(bp.buffer.msgs) == 0 && bp.buffer.parent == bp.parent && !bp.timerFired
 //@   modifies bp.timer, bp.timerFired, bp.buffer, map:bp.parent.txnmgr.sequenceNumbers
-//@ func (bp *brokerProducer) waitForSpace(msg, forceRollover) props C16
+// rolls counts the roll-overs of the worker's buffer (a roll-over installs a new produce set, which takes the
+// transaction manager's current producer id and epoch)
+//@ ghost field brokerProducer.rolls int
+//@ func (bp *brokerProducer) waitForSpace(msg, forceRollover) props C16 C05
 //@   returns err
+//@   callsite brokerProducer.rollOver: effect bp.rolls == old(bp.rolls) + 1
+//@   callsite brokerProducer.rollOver: modifies bp.rolls
+//@   ensures[forced_rollover_rolls @C05] err == nil && forceRollover ==> bp.rolls == old(bp.rolls) + 1
+//@   ensures[rolls_only_grow @C05] bp.rolls >= old(bp.rolls)
+//@   loop 0: invariant[not_rolled_yet @C05] bp.rolls == old(bp.rolls)
 //@   requires msg != nil && bp.parent != nil && bp.parent.conf != nil && MaxRequestSize >= 10240
 //@   requires 0 <= bsz(msg, 1) && bsz(msg, 1) <= 2305843009213693952 && 0 <= bsz(msg, 2) && bsz(msg, 2) <= 2305843009213693952
 //@   requires bp.buffer != nil && 0 <= bp.buffer.bufferBytes && bp.buffer.bufferBytes <= 2305843009213693952 && (forall t string, p int32 :: bp.buffer.msgs[t] != nil && bp.buffer.msgs[t][p] != nil ==> 0 <= bp.buffer.msgs[t][p].bufferBytes && bp.buffer.msgs[t][p].bufferBytes <= 2305843009213693952)
@@ -2257,7 +2273,13 @@ package sarama
 // run: one input message per iteration. (The message sizes are those the dispatcher admitted: A-input bound.)
 //@ func (bp *brokerProducer) shutdown() trusted
 //@   modifies bp.buffer, bp.timer, bp.timerFired, bp.closing
-//@ func (bp *brokerProducer) run() props C16
+//@ func (bp *brokerProducer) run() props C16 C05
+//@   callsite brokerProducer.rollOver: effect bp.rolls == old(bp.rolls) + 1
+//@   callsite brokerProducer.rollOver: modifies bp.rolls
+// (C05) a message joins a batch of its own producer epoch: the buffer it is added to carries the message's epoch, or was
+// rolled over while this message was being handled
+//@   loop 0: iter_ensures[rolls_only_grow @C05] bp.rolls >= it(bp.rolls)
+//@   callsite produceSet.add: requires[batch_of_the_message_epoch @C05] bp.parent.txnmgr.producerID != noProducerID ==> bp.buffer.producerEpoch == msg.producerEpoch || bp.rolls != it(bp.rolls)
 //@   requires bp.parent != nil && bp.parent.conf != nil && bp.parent.txnmgr != nil && MaxRequestSize >= 10240 && bp.currentRetries != nil
 //@   requires bp.buffer != nil && 0 <= bp.buffer.bufferBytes && bp.buffer.bufferBytes <= 2305843009213693952 && (forall t string, p int32 :: bp.buffer.msgs[t] != nil && bp.buffer.msgs[t][p] != nil ==> 0 <= bp.buffer.msgs[t][p].bufferBytes && bp.buffer.msgs[t][p].bufferBytes <= 2305843009213693952)
 //@   callsite produceSet.add: requires[admitted_or_empty_buffer] $recv == bp.buffer && $msg == msg && (!!(bp.buffer.bufferBytes + bsz(msg, ite(verAtLeast(bp.buffer.parent.conf.Version, V0_11_0_0), 2, 1)) < MaxRequestSize - 10240 && !(bp.buffer.msgs[msg.Topic] != nil && bp.buffer.msgs[msg.Topic][msg.Partition] != nil && bp.buffer.msgs[msg.Topic][msg.Partition].bufferBytes + bsz(msg, ite(verAtLeast(bp.buffer.parent.conf.Version, V0_11_0_0), 2, 1)) >= bp.buffer.parent.conf.Producer.MaxMessageBytes) && !(bp.buffer.parent.conf.Producer.Flush.MaxMessages > 0 && bp.buffer.bufferCount >= bp.buffer.parent.conf.Producer.Flush.MaxMessages)) || (bp.buffer.bufferCount == 0 && bp.buffer.bufferBytes == 0 && maplen(bp.buffer.msgs) == 0))
@@ -2407,6 +2429,7 @@ package sarama
 //@ func clusterAdmin.AlterPartitionReassignments#lit0() props C19
 //@   returns e
 //@   per_return
+//@   callsite Broker.AlterPartitionReassignments: requires[to_the_controller_of_this_attempt] $recv == controllerAt(ca, ca.refreshes)
 //@   loop 0: invariant rsp != nil && (rsp.ErrorCode > 0 ==> len(errs) > 0)
 //@   loop 1: invariant rsp != nil && (rsp.ErrorCode > 0 ==> len(errs) > 0)
 //@   ensures[success_only_if_broker_said_so] e == nil ==> rsp != nil && rsp.ErrorCode <= 0
@@ -2523,3 +2546,25 @@ package sarama
 // is popped - and thereby checked against the bytes read - on every path on which the decoder succeeds
 // (obligation wire/<Type>/balanced of the relational contract).
 //@ wiredual[balanced] props C10
+
+// (C06) Close with auto-commit enabled: the final flush is attempted at least once - also with
+// Consumer.Offsets.Retry.Max == 0 - and at most Retry.Max + 1 times; attempts stop as soon as every partition
+// manager could be released.
+//@ ghost field offsetManager.flushes int
+// the steps of Close are trusted: they may change anything reachable except the configuration (A-own: a Config is
+// not written after Validate) and the ghost counter
+//@ func (om *offsetManager) flushToBroker() trusted
+//@   effect om.flushes == old(om.flushes) + 1
+//@   ensures om.conf == old(om.conf) && om.conf.Consumer.Offsets.Retry.Max == old(om.conf.Consumer.Offsets.Retry.Max) && om.conf.Consumer.Offsets.AutoCommit.Enable == old(om.conf.Consumer.Offsets.AutoCommit.Enable)
+//@   modifies *
+//@ func (om *offsetManager) asyncClosePOMs() trusted
+//@   ensures om.conf == old(om.conf) && om.conf.Consumer.Offsets.Retry.Max == old(om.conf.Consumer.Offsets.Retry.Max) && om.conf.Consumer.Offsets.AutoCommit.Enable == old(om.conf.Consumer.Offsets.AutoCommit.Enable) && om.flushes == old(om.flushes)
+//@   modifies *
+//@ func offsetManager.Close#lit0() props C06
+//@   requires om.conf != nil && om.conf.Consumer.Offsets.Retry.Max >= 0 && om.conf.Consumer.Offsets.Retry.Max < 4611686018427387904
+//@   loop 0: invariant[one_flush_per_attempt] attempt >= 0 && attempt <= old(om.conf.Consumer.Offsets.Retry.Max) + 1 && om.flushes == old(om.flushes) + attempt
+//@   loop 0: invariant[config_kept] om.conf == old(om.conf) && om.conf.Consumer.Offsets.Retry.Max == old(om.conf.Consumer.Offsets.Retry.Max)
+//@   ensures[final_flush_attempted] old(om.conf.Consumer.Offsets.AutoCommit.Enable) ==> om.flushes >= old(om.flushes) + 1
+//@   ensures[attempts_bounded] om.flushes <= old(om.flushes) + old(om.conf.Consumer.Offsets.Retry.Max) + 1
+//@   ensures[no_flush_without_auto_commit] !old(om.conf.Consumer.Offsets.AutoCommit.Enable) ==> om.flushes == old(om.flushes)
+//@   nosafety
